@@ -127,23 +127,56 @@ func (in *Interp) valueEqTerm(x, y Value) *smt.Term {
 	panic(fmt.Sprintf("valueEqTerm kind %d", x.K))
 }
 
-// bytesEqTerm: equality of two []byte values (plain symbolic/concrete bytes, or opaque terms).
+// bytesEqTerm: equality of two []byte values, cell-wise: bytes against bytes, opaque chunks against opaque
+// chunks; an opaque chunk never equals plain bytes (idealisation) and is never empty.
 func (in *Interp) bytesEqTerm(x, y Value) *smt.Term {
 	c := in.Ctx
-	tx, ox := opaqueOfBytes(x)
-	ty, oy := opaqueOfBytes(y)
-	if ox != oy {
-		return c.F // an opaque value never equals a plain byte string (idealisation)
+	ux, uy := in.byteUnits(x), in.byteUnits(y)
+	if len(ux) != len(uy) {
+		return c.F
 	}
-	if ox {
-		return in.otermEq(tx, ty)
+	res := c.T
+	for i := range ux {
+		a, b := ux[i], uy[i]
+		switch {
+		case a.b != nil && b.b != nil:
+			res = c.And(res, c.Cmp(smt.OpEq, a.b, b.b))
+		case a.o != nil && b.o != nil:
+			res = c.And(res, in.otermEq(a.o, b.o))
+		default:
+			return c.F
+		}
+		if res == c.F {
+			return res
+		}
 	}
-	bx, ok1 := in.byteTerms(x)
-	by, ok2 := in.byteTerms(y)
-	if !ok1 || !ok2 {
-		unsupported("bytes equality on mixed opaque bytes")
+	return res
+}
+
+func (in *Interp) byteUnits(v Value) []ropeUnit {
+	if v.R == nil {
+		return nil
 	}
-	return in.seqEq(bx, by)
+	var out []ropeUnit
+	for _, b := range v.R.(*SliceV).S {
+		switch {
+		case b.K == KOpaque:
+			ob, ok := b.R.(*OpaqueBytes)
+			if !ok {
+				unsupported("byte slice with a non-byte cell")
+			}
+			if ob.T != nil {
+				out = append(out, ropeUnit{o: ob.T})
+			} else {
+				out = append(out, ropeUnit{o: ot("atom", ob.A, ob.Tag)})
+			}
+		case b.K == KInt:
+			out = append(out, ropeUnit{b: b.Term(in.Ctx)})
+		default:
+			unsupported("byte slice with a non-byte cell")
+		}
+	}
+	return out
 }
 
 func (in *Interp) seqEq(a, b []*smt.Term) *smt.Term {
@@ -275,6 +308,23 @@ func sliceKey(v Value) (string, bool) {
 	var b strings.Builder
 	b.WriteString("[")
 	for _, e := range v.R.(*SliceV).S {
+		if e.K == KOpaque {
+			ob, ok := e.R.(*OpaqueBytes)
+			if !ok {
+				return "", false
+			}
+			var k string
+			if ob.T != nil {
+				k, ok = otermKey(ob.T)
+			} else {
+				k, ok = fmt.Sprintf("<%s#%d/%s>", ob.A.Fam, ob.A.ID, ob.Tag), true
+			}
+			if !ok {
+				return "", false
+			}
+			b.WriteString(k + ",")
+			continue
+		}
 		k, ok := keyOf(e)
 		if !ok {
 			return "", false
